@@ -293,3 +293,79 @@ def check_arc(center, width, height, angle, theta1, theta2, c_ref, r_ref, pm, qm
     if interior:
         res["between"] = float(np.max(rc.between_defect(pm, qm, X, model)))
     return res
+
+
+# -- projective polygons clipped at a chart's line at infinity ---------------------------------
+#
+# A projective polygon with homogeneous vertices X_0..X_{nv-1} has the edges
+# {s X_i + t X_{i+1} : s, t >= 0} (the segment singled out by the given
+# representatives; a common sign change of all of them changes nothing).  In the
+# affine chart x_i != 0 a maximal cyclic run of vertices on which x_i keeps its
+# sign is one piece of the polygon: its boundary comes in from infinity along
+# the line through the run's first vertex v_1 and its predecessor w_0 (which lies
+# on the other side of the line at infinity) -- on the ray from v_1 *away* from
+# w_0, because s a + t b with a_i > 0 > b_i has chart coordinates
+# aff(a) + mu (aff(b) - aff(a)), mu <= 0 -- walks v_1 .. v_m, and leaves along the
+# ray from v_m away from the successor w_{m+1}.  (Seeded change C19-r4-1: the
+# pieces of every polygon of a composite cut at the first polygon's switch index.)
+
+def sign_runs(X, i):
+    """X (nv, 3): maximal cyclic runs of vertex indices on which x_i keeps its
+    sign, each in cyclic order.  One run = the polygon lies in the chart; 2k runs
+    = it crosses the chart's line at infinity 2k times."""
+    X = np.asarray(X, dtype=float)
+    s = np.sign(X[:, i])
+    nv = len(s)
+    starts = [j for j in range(nv) if s[j] != s[j - 1]]
+    if not starts:
+        return [list(range(nv))]
+    runs = []
+    for a, j in enumerate(starts):
+        nxt = starts[(a + 1) % len(starts)]
+        m = (nxt - j) % nv or nv
+        runs.append([(j + t) % nv for t in range(m)])
+    return runs
+
+
+def clipped_piece(X, run, i):
+    """(V, w_prev, w_next): chart coordinates of the run's vertices in order, of
+    the vertex before the run and of the vertex after it."""
+    W = affine_chart(X, i)
+    nv = len(W)
+    return W[run], W[(run[0] - 1) % nv], W[(run[-1] + 1) % nv]
+
+
+def open_vertices(xy):
+    """patch vertices without the closing repetition of the first one."""
+    xy = np.asarray(xy, dtype=float)
+    if len(xy) > 1 and np.array_equal(xy[0], xy[-1]):
+        xy = xy[:-1]
+    return xy
+
+
+def piece_alignment(xy, V, tol=1e-9):
+    """rotation / orientation of the open vertex list xy that starts with the
+    vertices V in order: returns the re-ordered list or None.  The remaining
+    entries (from the one after V[-1] round to the one before V[0]) are the
+    artificial vertices that close the piece off screen."""
+    n, m = len(xy), len(V)
+    if n < m:
+        return None
+    scale = 1.0 + np.abs(V)
+    for seq in (xy, xy[::-1]):
+        for r in range(n):
+            cand = np.roll(seq, -r, axis=0)
+            if np.all(np.abs(cand[:m] - V) <= tol * scale):
+                return cand
+    return None
+
+
+def ray_defect(d, v, w):
+    """(distance of d from the line through v and w relative to |d - v|,
+    position of d along the direction v - w): d is on the ray from v away from
+    w when the first is ~0 and the second > 0."""
+    u = (v - w) / np.linalg.norm(v - w)
+    x = d - v
+    along = float(x @ u)
+    off = float(abs(x[0] * u[1] - x[1] * u[0]))
+    return off / max(float(np.linalg.norm(x)), 1e-300), along
